@@ -60,6 +60,30 @@ func c15Bucket(c *Ctx) {
 						if b := bound(bs.Call.Args[0]); b != nil && (b == idx || b == ia.Index) {
 							good = true
 						}
+						return
+					}
+					// the size was computed outside the closure and captured
+					if b := bound(size); b != nil {
+						var vals []ssa.Value
+						if al, ok := b.(*ssa.Alloc); ok {
+							for _, ref := range *al.Referrers() {
+								if st, ok := ref.(*ssa.Store); ok && st.Addr == ssa.Value(al) {
+									vals = append(vals, st.Val)
+								}
+							}
+						} else {
+							vals = append(vals, b)
+						}
+						all := len(vals) > 0
+						for _, v := range vals {
+							bs, ok := v.(*ssa.Call)
+							if !ok || !strings.HasSuffix(calleeName(bs), "bucketSize") || len(bs.Call.Args) != 1 || !(cellOf(bs.Call.Args[0]) == idx || bs.Call.Args[0] == ia.Index) {
+								all = false
+							}
+						}
+						if all {
+							good = true
+						}
 					}
 				}
 				allInstrs(cl, false, func(_ *ssa.Function, ins ssa.Instruction) {
